@@ -54,6 +54,13 @@ def borI (a b : Int) : Int := ((a.toNat ||| b.toNat : Nat) : Int)
 def shlI (a k : Int) : Int := ((a.toNat <<< k.toNat : Nat) : Int)
 def shrI (a k : Int) : Int := ((a.toNat >>> k.toNat : Nat) : Int)
 
+/-- `memcpy(dst + doff, src + soff, n)` from an immutable byte array into a buffer the function owns -/
+def memcpyB (dst : List Int) (doff : Int) (src : Bytes) (soff n : Int) : Option (List Int) :=
+  if doff < 0 ∨ soff < 0 ∨ n < 0 then none
+  else if soff.toNat + n.toNat ≤ src.length ∧ doff.toNat + n.toNat ≤ dst.length then
+    some (dst.take doff.toNat ++ ((src.drop soff.toNat).take n.toNat).map (fun b => (b.toNat : Int)) ++ dst.drop (doff.toNat + n.toNat))
+  else none
+
 /-- the bytes of a buffer as the values a C program reads -/
 def memOf (b : Bytes) : List Int := b.map (fun x => (x.toNat : Int))
 
